@@ -132,11 +132,13 @@ PROPS = {
     },
     "C20": {
         "level": "model_checking",
-        "technique": "explicit-state breadth-first search over operation histories of the real MemoryEventStore with a reference model and private-state invariants checked after every operation",
-        "claim": "all histories over a 49-operation alphabet (2 sessions x 2 streams; payload sizes 0..limit+1; After at -1,0,1,2,last; SetMaxBytes 1,2,4; SessionClosed) are run on the real store: exhaustively up to the shallow depth and state-deduplicated beyond it; every After result must be the exact appended suffix or ErrEventsPurged with something really evicted, and retained data must be a suffix, correctly accounted and within limit+most recent item",
+        "technique": "explicit-state breadth-first search over operation histories of the real MemoryEventStore with a reference model and private-state invariants checked after every operation; plus stateless model checking of concurrent Append/After under a controlled scheduler",
+        "claim": "all histories over a 49-operation alphabet (2 sessions x 2 streams; payload sizes 0..limit+1; After at -1,0,1,2,last; SetMaxBytes 1,2,4; SessionClosed) are run on the real store: exhaustively up to the shallow depth and state-deduplicated beyond it; every After result must be the exact appended suffix or ErrEventsPurged with something really evicted, and retained data must be a suffix, correctly accounted and within limit+most recent item; After indices include math.MaxInt; (E1) two or three concurrent appenders near the limit plus a concurrent After under the controlled scheduler (B<=3 / 2): exact byte accounting, the size bound and the suffix property hold when all have finished",
         "note": "eviction order across streams (map iteration) is not part of the oracle; histories beyond the stated depth and more than 2x2 streams are outside the bound; the abstraction (limit, last size, per stream first index + item sizes) is only used for deduplication beyond the shallow depth",
         "parts": [
-            {"pkg": "mcp", "mode": "plain", "test": "TestVerifC20", "shards": 1, "gomaxprocs": 16, "time_s": {"quick": 120, "thorough": 1500}},
+            {"pkg": "mcp", "mode": "plain", "test": "TestVerifC20", "shards": 1, "gomaxprocs": 16, "time_s": {"quick": 120, "thorough": 1500}, "scenario_exclude": ["concurrent/", "free-race/"]},
+            {"pkg": "mcp", "mode": "instr", "test": "TestVerifC20Concurrent", "scenario_prefix": "concurrent/", "two_phase": True, "time_s": {"thorough": 1800}},
+            {"pkg": "mcp", "mode": "race", "test": "TestVerifC20Concurrent", "scenario_prefix": "free-race/", "free_runs": {"quick": 60, "thorough": 600}},
         ],
         "assumptions": ["payload contents are a function of (stream, index), so item sizes and first index determine the future behaviour of a state"],
     },
